@@ -283,6 +283,16 @@ def classify(recs, odevs, evs=()):
 
 
 def run(ctx, replay):
+    try:
+        _run(ctx, replay)
+    except vlib.Infra:
+        raise
+    except Exception as e:      # nothing that goes wrong inside the driver is a statement about maddy
+        import traceback
+        raise vlib.Infra("driver error: %s\n%s" % (e, traceback.format_exc()[-1500:]))
+
+
+def _run(ctx, replay):
     thorough = ctx.tier == "thorough"
     odevs = open_devs()
     devs_open = [d for d in ALL_DEVS if d in odevs]   # ENV_DEV is not a switch of the model
@@ -509,11 +519,14 @@ META = {
                  "messages move, a new empty INBOX remains), creates missing superiors and touches no other mailbox; "
                  "add/copy/move assign the next UIDs of the target in order, copies keep body and flags; remove, "
                  "move and the flag commands affect exactly the addressed messages; every stored message keeps a "
-                 "readable body and (mailbox, UIDVALIDITY, UID) never names two different messages; (5) the list "
-                 "commands print exactly the stored names / UIDs; (6) no command panics.",
+                 "readable body, the message store holds exactly the bodies stored messages refer to (from the "
+                 "code), (mailbox, UIDVALIDITY, UID) never names two different messages and a mailbox created anew "
+                 "never gets a UIDVALIDITY its name had before; a message the server delivers for any spelling of "
+                 "NAME lands in INBOX of the account `imap-acct create NAME` made; (5) the list commands print "
+                 "exactly the stored names / UIDs; (6) no command panics.",
     "text": "TLC visits every behaviour of AcctMgmt.tla inside four (quick) / six (thorough) directed bounds and checks "
             "the X10 predicates in every state; the same predicates are evaluated by TLC over traces recorded from "
-            "the real commands driven with TLC-generated behaviours (9 exhaustive directed families, sampled in "
+            "the real commands driven with TLC-generated behaviours (12 exhaustive directed families, sampled in "
             "quick, plus seeded simulation).",
     "note": "sqlite3 only; one command at a time; trusted: TLC, the harness (state is read back through the modules' "
             "own APIs), Go toolchain.",
